@@ -29,6 +29,7 @@
 -/
 import MdModel.Dump2
 import MdModel.RangeMap
+import MdModel.Gen.MapsGuard
 namespace MdModel.Dump
 open MdModel
 
@@ -173,6 +174,45 @@ def readLinuxMapsX (b : Bytes) : M LinuxMapsX :=
   M.alloc es.length MAPINFO_SZ false >>= fun _ =>
   mapsFromRegions es >>= fun t =>
   pure ⟨es, t⟩
+
+/-! ## the proposed repair (notes/pending-fix-procfs-mmappath.diff): `maps_text_is_safe`
+
+`translators/maps_guard.py` looks at `MinidumpLinuxMaps::read` of the repository under test and sets
+`MdModel.Gen.MapsGuard.MAPS_GUARDED`: `false` for the code with the open finding, `true` when `read`
+first refuses text that fails `maps_text_is_safe` (whose text the translator pins). -/
+
+/-- the per-line test of `maps_text_is_safe`: an attribute line of shape 3 (whatever precedes it),
+    or a line whose sixth blank-separated column, trimmed, is of shape 1 or 2 (whatever the other
+    columns hold) -/
+def guardLineBad (line : List UInt8) : Bool :=
+  if startsUpper line then HostileAttrLine line
+  else
+    match (splitNByte 32 6 line)[5]? with
+    | some path => HostilePath (trimBytes path)
+    | none => false
+
+/-- `maps_text_is_safe` on the lines `BufRead::lines` yields: `true` at the first line that is not
+    UTF-8 (procfs-core stops there with an error of its own), `false` at the first bad line -/
+def mapsGuardOk : List (List UInt8) → Bool
+  | [] => true
+  | l :: rest => if !utf8Valid l then true else if guardLineBad l then false else mapsGuardOk rest
+
+/-- the same with its allocation log (one `String` per line looked at) -/
+def mapsGuard : List (List UInt8) → M Bool
+  | [] => pure true
+  | l :: rest =>
+    M.alloc l.length 2 false >>= fun _ =>
+    if !utf8Valid l then pure true else if guardLineBad l then pure false else mapsGuard rest
+
+/-- `MinidumpLinuxMaps::read` with (`guarded = true`) or without the guard -/
+def readLinuxMapsG (guarded : Bool) (b : Bytes) : M LinuxMapsX :=
+  if guarded then
+    mapsGuard (textLines b.toList) >>= fun ok =>
+    if ok then readLinuxMapsX b else M.fail .StreamReadFailure
+  else readLinuxMapsX b
+
+/-- `MinidumpLinuxMaps::read` of the repository under test -/
+def readLinuxMapsR (b : Bytes) : M LinuxMapsX := readLinuxMapsG MdModel.Gen.MapsGuard.MAPS_GUARDED b
 
 /-- `memory_info_at_address` [2620]: `self.regions_by_addr.get(address).map(|&index| &self.regions[index])`
     — the index panic is explicit -/
